@@ -313,6 +313,10 @@ async def search(ctx):
 
 async def replay(ctx, detail):
     sig = detail.get("signature", "")
+    if detail.get("detail", {}).get("gone_case"):  # a scenario of the oracle shared with C16
+        import props.c16 as c16
+
+        return await c16.replay(ctx, detail)
     await correspond(ctx)
     await search(ctx)
     return {"reproduced": any(f.signature == sig for f in ctx.findings), "signature": sig}
